@@ -1251,10 +1251,10 @@ package scipipe
 //@   ensures fresh: inp != nil && fresh(inp) && inp.Chan != nil && fresh(inp.Chan) && inp.RemotePorts != nil && fresh(inp.RemotePorts) && len(inp.RemotePorts) == 0 && !inp.ready && inp.name == name
 //@   ensures empty-channel: chanSentN(inp.Chan) == 0 && chanRecvN(inp.Chan) == 0 && !chanClosed(inp.Chan)
 
-//@ func (*FileIP).Exists(ip) (exists)
+//@ func (*FileIP).Exists(ip) (res)
 //@   props C02
 //@   modifies locked
-//@   ensures def: exists <==> statOK(fsEpoch, ip.path)
+//@   ensures def: res <==> statOK(fsEpoch, ip.path)
 
 //@ func NewFileIP(path) (res, err)
 //@   props C02 C09 C11
